@@ -105,7 +105,9 @@ impl WorkerProc {
 
     /// Send a request; call `on_at` for progress lines; return the final message.
     pub fn request(&mut self, req: &Value, timeout: Duration, mut on_at: impl FnMut(&Value)) -> Result<Value, Death> {
-        if writeln!(self.stdin, "{}", req).is_err() || self.stdin.flush().is_err() {
+        let mut line = req.to_string();
+        line.push('\n');
+        if self.stdin.write_all(line.as_bytes()).is_err() || self.stdin.flush().is_err() {
             return self.recv(Duration::from_secs(5)).and_then(|_| Err(Death::Protocol("write failed".into())));
         }
         loop {
